@@ -194,6 +194,7 @@ PROPS['C06'] = dict(
     rule='positions along biased playouts (with the square passed over tracked by the harness when the last move was a double push) rendered by the library, re-parsed (6 and 4 fields), compared with the independent standard writer of Spec/Text.v whose text is parsed by the library too; plus arbitrary builder states rendered and re-parsed; distinct = distinct positions with an en-passant field or partial castling rights',
 )
 PROPS['C07'] = dict(
+    miri=True,
     coq_targets=['Proofs/PopcntFacts.vo', 'Proofs/AcceptSound.vo', 'Proofs/MoveListCap.vo', 'Proofs/ParseTotal.vo'],
     scope='see theorem list',
     streams=lambda tier: [
